@@ -31,4 +31,5 @@ CATALOGUE = [
     ('variant', F, "        Eout_conj_t = Eout.T.conj()\n        Ein_conj_t = Ein.T.conj()\n        out = Eout_conj_t @ (fbar @ Ein_conj_t)\n        return out\n\n    def idft2(", "        out = Eout.conj().T @ fbar @ np.conj(Ein.T)\n        return out\n\n    def idft2(", '', 'conj/transposes reordered'),
     ('variant', A, "        fx = self.forward(xbar) - self.y0 # have to subtract offset\n        return self.a*(1 - fx**2)", "        e = np.exp(-2 * self.a * (xbar - self.x0))\n        return 4 * self.a * e / (1 + e)**2", '', 'tanh derivative in closed form'),
     ('variant', C, "        grad = 2 * alpha * diff\n", "        grad = (diff + diff) / diff.size\n", '', 'mse gradient rewritten'),
+    ('mutant', C, "    beta = (D-alphaI).sum()/N", "    beta = (D-alphaI)/N", 'C06.cost', 'bias is a per-sample array instead of the scalar least-squares bias (pinned defect, fixed by c6e7906)'),
 ]
